@@ -25,8 +25,11 @@ func (h *Handshake) Send(conn net.Conn) error {
 		return err
 	}
 
-	_, err := conn.Write(data)
-	return err
+	if _, err := conn.Write(data); err != nil {
+		return err
+	}
+	// 超时仅针对握手本身：连接上的 deadline 是绝对时间点，不清除的话握手 10 秒之后的所有写入都会超时失败
+	return conn.SetWriteDeadline(time.Time{})
 }
 
 // maxHandshakeAddrLen 握手中广告地址的最大长度
@@ -48,6 +51,11 @@ func (h *Handshake) Wait(conn net.Conn) error {
 	}
 	buf = append(buf, make([]byte, addrLen)...)
 	if _, err := io.ReadFull(conn, buf[4:]); err != nil {
+		return err
+	}
+	// 超时仅针对握手本身：不清除的话，连接空闲超过 10 秒后读循环会因 i/o timeout 终止连接 Actor，
+	// 对端此后写入该连接的消息将全部丢失
+	if err := conn.SetReadDeadline(time.Time{}); err != nil {
 		return err
 	}
 	reader := messages.NewReaderFromPool(buf)
